@@ -63,17 +63,34 @@ def int_value(text):
     return v
 
 
-def tokens(data):
-    """-> list of transcript lines as the harness prints them for 'lex' (NUL-free input, no includes resolved)"""
+def tokens(data, files=None, depth=0):
+    """-> list of transcript lines as the harness prints them for 'lex' (NUL-free input).  Without [files] the list
+    ends at the first include directive with an INCLUDE marker (callers decide what an include does); with [files]
+    (a dict path -> content) a directive at the beginning of a line is replaced by the tokens of the named file,
+    scanned from its own line 1, after which the including text goes on in the middle of its line (so a second
+    directive on that line is not one); a missing file or the 11th level is an error token at the directive."""
     out = []
+    st = _scan(data, files, depth, out)
+    if st == "eof":
+        out.append("K Z %d" % out.pop())
+        out.append("R eof")
+    elif st == "err":
+        out.append("R err")
+    elif st == "stuck":
+        out.append("R stuck")
+    return out
+
+
+def _scan(data, files, depth, out):
+    """appends token lines to out; returns 'eof' (then the last element of out is the final line number, to be popped
+    by the caller), 'err', 'stuck' or 'include' (marker appended)"""
     pos, line, bol = 0, 1, True
     n = len(data)
     while pos < n:
         m = longest(COMP["I"], data, pos, bol)
         if m is None:
             # only \n can fail [^\n] -- but ws1 matches it
-            out.append("R stuck")
-            return out
+            return "stuck"
         name, ln = m
         text = data[pos:pos + ln]
         pos += ln
@@ -125,8 +142,18 @@ def tokens(data):
                 break
             bol = False
             if name == "inc":
-                out.append("INCLUDE %s %d" % (bytes(acc).hex(), line))
-                return out              # callers decide what an include does
+                if files is None:
+                    out.append("INCLUDE %s %d" % (bytes(acc).hex(), line))
+                    return "include"    # callers decide what an include does
+                path = bytes(acc).split(b"\0")[0]
+                if depth >= 10 or path not in files:
+                    out.append("K E %d" % line)
+                    return "err"
+                sub = _scan(files[path], files, depth + 1, out)
+                if sub != "eof":
+                    return sub
+                out.pop()               # the included file's last line number
+                continue
             s = bytes(acc)
             s = s.split(b"\0")[0]
             out.append("K sh%s %d" % (s.hex(), line))
@@ -141,15 +168,13 @@ def tokens(data):
             b = dbl_bits(text)
             if b is None:
                 out.append("K E %d" % line)
-                out.append("R err")
-                return out
+                return "err"
             out.append("K f%016x %d" % (b, line))
         elif name in ("integer", "integer64"):
             v = int_value(text)
             if v is None:
                 out.append("K E %d" % line)
-                out.append("R err")
-                return out
+                return "err"
             if name == "integer" and -2**31 <= v <= 2**31 - 1:
                 out.append("K i%d %d" % (v, line))
             else:
@@ -159,14 +184,12 @@ def tokens(data):
             bits = 32 if name == "hex" else 64
             if v >= 2**bits:
                 out.append("K E %d" % line)
-                out.append("R err")
-                return out
+                return "err"
             if v >= 2**(bits - 1):
                 v -= 2**bits
             out.append("K %s%d %d" % ("x" if name == "hex" else "X", v, line))
         else:
             ch = {"eq": "=", "comma": ",", "garbage": "?"}.get(name, name)
             out.append("K p%s %d" % (ch, line))
-    out.append("K Z %d" % line)
-    out.append("R eof")
-    return out
+    out.append(line)
+    return "eof"
